@@ -530,7 +530,7 @@ func (fr *Frame) applyContract(site ssa.Instruction, k *FuncContract, ce callee,
 			bt := ce.clo.frame.val(b)
 			if pt, ok := fv.Type().Underlying().(*types.Pointer); ok && !isAggregate(pt.Elem()) {
 				a := vc.cellAddr(pt.Elem(), bt)
-				env.vars[fv.Name()] = cval{t: vc.read(st, a), typ: pt.Elem(), sort: vc.sortOf(pt.Elem()), addr: a}
+				env.vars[fv.Name()] = cval{t: vc.read(st, a), typ: pt.Elem(), sort: vc.sortOf(pt.Elem()), addr: a, cell: true}
 			} else {
 				env.vars[fv.Name()] = cval{t: bt, typ: fv.Type(), sort: vc.sortOf(fv.Type())}
 			}
